@@ -277,8 +277,18 @@ func (m *c47) judgeMsg(r *kit.Rng, msg proto.Message, how string, touched []stri
 
 	// byte mutants of the wire form
 	if marshalled && len(bz) > 0 {
-		for k := 0; k < 2; k++ {
+		for k := 0; k < 3; k++ {
 			in, kinds := mutateBytes(r, bz)
+			if k == 0 {
+				// systematic: exactly one field (at any depth) absent from the wire form
+				d, where, ok := pbDropField(r, bz, 0)
+				if !ok {
+					continue
+				}
+				in, kinds = d, "drop-field"
+				_ = where
+				c.Inc("wire_field_dropped_variants")
+			}
 			fresh := reflect.New(reflect.TypeOf(msg).Elem())
 			var uerr error
 			mw := func() map[string]any { return map[string]any{"type": tname, "how": "wire-mutant " + kinds} }
@@ -935,6 +945,7 @@ func TestC47(t *testing.T) {
 	c.Assume("a panic reached only by a Go value that no wire decoding can produce (e.g. an Any caching a value of the wrong interface) is counted but not judged")
 	c.Floor("wire_validated", 1500)
 	c.Floor("absent_field_variants", 150)
+	c.Floor("wire_field_dropped_variants", 1200)
 	c.Floor("validation_accepted", 400)
 	c.Floor("validation_rejected", 1000)
 	c.Floor("wire_mutant_validated", 400)
@@ -964,7 +975,7 @@ func TestC47(t *testing.T) {
 	bzTs := m.byteTargets()
 	exercised := map[string]bool{}
 
-	n := c.N(5000, 40000)
+	n := c.N(4500, 40000)
 	for i := 0; i < n; i++ {
 		if c.SkipCase(i) {
 			continue
